@@ -35,7 +35,7 @@ func (e *env) resolve(v ssa.Value, bind map[ssa.Value]ssa.Value) ssa.Value {
 			continue
 		}
 		switch v.(type) {
-		case *ssa.Phi, *ssa.Parameter, *ssa.Call, *ssa.Extract, *ssa.UnOp:
+		case *ssa.Phi, *ssa.Parameter, *ssa.Call, *ssa.Extract, *ssa.UnOp, *ssa.FreeVar:
 			if r := e.lookup(v); r != nil && r != v {
 				v = r
 				continue
@@ -101,6 +101,10 @@ type PathOpts struct {
 	// Recursion is never inlined; depth is limited to InlineDepth (default 2).
 	Inline      func(caller *ssa.Function, call *ssa.Call, callee *ssa.Function) bool
 	InlineDepth int
+	// InlineClosures also expands calls of a function VALUE that resolves, on the path, to a closure
+	// made earlier on it (a callback handed to an inlined helper, a func literal converted to a named
+	// func type); the closure's free variables are bound to what was captured.
+	InlineClosures bool
 }
 
 // Resolve follows phis (as bound on this path at step s) and parameter bindings.
@@ -117,6 +121,28 @@ func (pa *Path) TermsAt(s Step) *Terms {
 		}
 		return nil
 	})
+}
+
+// CellValue: v is a load of a local variable that lives in memory (captured by a closure): returns the
+// step of the last store into that variable on the path (also a store made by an inlined closure,
+// through its captured reference) and true; (zero Step, false) when the path never stores into it — the
+// variable still holds its zero value. ok is false when v is not such a load.
+func (pa *Path) CellValue(at Step, v ssa.Value) (st *ssa.Store, stStep Step, stored bool, ok bool) {
+	ld, isLd := pa.Resolve(at, v).(*ssa.UnOp)
+	if !isLd || ld.Op != token.MUL {
+		return nil, Step{}, false, false
+	}
+	cell, isAlloc := pa.Resolve(at, ld.X).(*ssa.Alloc)
+	if !isAlloc {
+		return nil, Step{}, false, false
+	}
+	for i := len(pa.Steps) - 1; i >= 0; i-- {
+		s := pa.Steps[i]
+		if x, isSt := s.In.(*ssa.Store); isSt && !s.Deferred && pa.Resolve(s, x.Addr) == ssa.Value(cell) {
+			return x, s, true, true
+		}
+	}
+	return nil, Step{}, false, true
 }
 
 // LastStep returns the final step (the return), convenient for resolving results.
@@ -426,6 +452,19 @@ func (p *Prog) EnumPaths(fn *ssa.Function, opts PathOpts) ([]*Path, int, error) 
 			case *ssa.Call:
 				steps = append(steps, Step{In: in, Env: e, Depth: fr.depth})
 				callee := x.Call.StaticCallee()
+				var closure *ssa.MakeClosure
+				if callee == nil && opts.InlineClosures && !x.Call.IsInvoke() {
+					cv := res(x.Call.Value)
+					for i := 0; i < 4; i++ {
+						if ct, ok := cv.(*ssa.ChangeType); ok {
+							cv = res(ct.X)
+						}
+					}
+					if mc, ok := cv.(*ssa.MakeClosure); ok {
+						closure = mc
+						callee, _ = mc.Fn.(*ssa.Function)
+					}
+				}
 				if opts.Inline == nil || callee == nil || callee.Blocks == nil || fr.depth >= opts.InlineDepth || !opts.Inline(fr.fn, x, callee) {
 					continue
 				}
@@ -443,6 +482,13 @@ func (p *Prog) EnumPaths(fn *ssa.Function, opts PathOpts) ([]*Path, int, error) 
 				for i, prm := range callee.Params {
 					if i < len(x.Call.Args) {
 						ne = &env{phi: prm, val: res(x.Call.Args[i]), parent: ne}
+					}
+				}
+				if closure != nil {
+					for i, fv := range callee.FreeVars {
+						if i < len(closure.Bindings) {
+							ne = &env{phi: fv, val: res(closure.Bindings[i]), parent: ne}
+						}
 					}
 				}
 				nf := &inlineFrame{fn: callee, call: x, retBlk: b, retIdx: ii + 1, parent: fr, depth: fr.depth + 1,
